@@ -23,6 +23,8 @@ def c07(ck, tier, seed):
     ck.sample_from(files)
     results = vlib.validate("TraceManager", files, ["C07"])
     ck.add_validation(results, driver_cmd=cmds)
+    import checks
+    checks.store_mc(ck, tier)
     ck.assumptions += ["schedules are those the OS produced (sampling); weak-memory effects are not modelled",
                        "design-level exploration of all interleavings: MC_StoreConc when present in model_checking_runs"]
 
